@@ -61,6 +61,8 @@ void abtmc_check_fail(const char *key, const char *fmt, ...)
             abtmc_check_fail(key, __VA_ARGS__);                                \
     } while (0)
 void abtmc_observe(const char *fmt, ...) __attribute__((format(printf, 1, 2)));
+/* named counter summed over all executions into the evidence */
+void abtmc_stat(const char *name, long long add);
 
 /* ledger / fault injector (allocations made by libabt only) */
 enum {
